@@ -4,7 +4,8 @@
 //!                           permission checks, run on the real executors; per-operation result and the final
 //!                           grant table are compared with Store/Priv.v inside Coq (shards), and the property's
 //!                           own oracle is evaluated on the implementation (revoked => denied, never granted =>
-//!                           denied, GRANT by a role without authority, REVOKE that kills the process).
+//!                           denied, GRANT by a role without authority; REVOKE over cyclic delegation graphs is tried in a
+//!                           child process first).
 //! Part B (ids 1_000_000..)  the access-path table: every statement shape x privilege sets lacking one required
 //!                           privilege / holding them all / random; outcome and changed tables are compared with
 //!                           Store/PrivPaths.v inside Coq, and "reads or modifies without the privilege" is
@@ -358,8 +359,9 @@ fn as_admin<T>(db: &mut Database, f: impl FnOnce(&mut Database) -> T) -> T {
     out
 }
 
-/// does executing REVOKE GRANT OPTION FOR ... CASCADE from these (grantee, privilege) pairs recurse forever?
-/// (the grants are not removed in that mode, so the recursion follows grantor -> grantee edges of an unchanged graph)
+/// would REVOKE GRANT OPTION FOR ... CASCADE from these (grantee, privilege) pairs recurse forever WITHOUT a visited set?
+/// (the grants are not removed in that mode, so the recursion follows grantor -> grantee edges of an unchanged graph;
+/// this is the situation that killed the process before the revoke-cascade-visited-set fix)
 fn cascade_would_loop(db: &Database, obj: &str, grantees: &[String], privs: &[PrivilegeType]) -> bool {
     let grants = db.catalog.get_all_grants();
     fn dfs(grants: &[vibesql_catalog::PrivilegeGrant], obj: &str, p: &PrivilegeType, x: &str, stack: &mut Vec<String>, depth: usize) -> bool {
@@ -513,7 +515,7 @@ fn run_hop(st: &mut HState, o: &HOp, allow_crash: bool) -> StepObs {
                         && cascade_would_loop(db, &s.object_name, &s.grantees, &expand_privs(&s.privileges, &s.object_type))
                         && !allow_crash
                     {
-                        return StepObs { coq_op: Some(op), code: 9, note: "not executed in-process: revoke_cascade would recurse forever".into() };
+                        return StepObs { coq_op: Some(op), code: 9, note: "cyclic delegation graph: tried in a child process first".into() };
                     }
                     let r = std::panic::catch_unwind(std::panic::AssertUnwindSafe(|| vibesql_executor::RevokeExecutor::execute_revoke(s, db).map(|_| ())));
                     let code = match r {
@@ -628,19 +630,19 @@ const PATHS: &[PathDef] = &[
     PathDef { ctor: "P_count_star", sql: "SELECT COUNT(*) FROM s", required: &[(S, SEL)], checked_extra: &[], class: "" },
     PathDef { ctor: "P_sum", sql: "SELECT SUM(v) FROM s", required: &[(S, SEL)], checked_extra: &[], class: "" },
     PathDef { ctor: "P_group_by", sql: "SELECT k, COUNT(*) FROM s GROUP BY k", required: &[(S, SEL)], checked_extra: &[], class: "" },
-    PathDef { ctor: "P_count_star_order_by", sql: "SELECT COUNT(*) FROM s ORDER BY 1", required: &[(S, SEL)], checked_extra: &[], class: "count-star-fast-path" },
-    PathDef { ctor: "P_count_star_limit", sql: "SELECT COUNT(*) FROM s LIMIT 1", required: &[(S, SEL)], checked_extra: &[], class: "count-star-fast-path" },
-    PathDef { ctor: "P_count_star_union_arm", sql: "SELECT 0 UNION ALL SELECT COUNT(*) FROM s", required: &[(S, SEL)], checked_extra: &[], class: "count-star-fast-path" },
-    PathDef { ctor: "P_count_star_with_cte", sql: "WITH c1 AS (SELECT 1 AS x) SELECT COUNT(*) FROM s", required: &[(S, SEL)], checked_extra: &[], class: "count-star-fast-path" },
-    PathDef { ctor: "P_count_star_scalar_limit", sql: "SELECT id, (SELECT COUNT(*) FROM s LIMIT 1) FROM m", required: &[(M, SEL), (S, SEL)], checked_extra: &[], class: "count-star-fast-path" },
-    PathDef { ctor: "P_in_index_order_by", sql: "SELECT id FROM m ORDER BY k IN (SELECT k FROM s), id", required: &[(M, SEL), (S, SEL)], checked_extra: &[], class: "in-subquery-index-path" },
-    PathDef { ctor: "P_in_index_group_by", sql: "SELECT COUNT(*) FROM m GROUP BY k IN (SELECT k FROM s)", required: &[(M, SEL), (S, SEL)], checked_extra: &[], class: "in-subquery-index-path" },
-    PathDef { ctor: "P_in_index_partition_by", sql: "SELECT id, SUM(v) OVER (PARTITION BY k IN (SELECT k FROM s)) FROM m", required: &[(M, SEL), (S, SEL)], checked_extra: &[], class: "in-subquery-index-path" },
-    PathDef { ctor: "P_window_partition_subquery", sql: "SELECT id, SUM(v) OVER (PARTITION BY (SELECT COUNT(*) FROM s WHERE s.k = m.k)) FROM m", required: &[(M, SEL), (S, SEL)], checked_extra: &[], class: "window-partition-error-swallowed" },
+    PathDef { ctor: "P_count_star_order_by", sql: "SELECT COUNT(*) FROM s ORDER BY 1", required: &[(S, SEL)], checked_extra: &[], class: "" },
+    PathDef { ctor: "P_count_star_limit", sql: "SELECT COUNT(*) FROM s LIMIT 1", required: &[(S, SEL)], checked_extra: &[], class: "" },
+    PathDef { ctor: "P_count_star_union_arm", sql: "SELECT 0 UNION ALL SELECT COUNT(*) FROM s", required: &[(S, SEL)], checked_extra: &[], class: "" },
+    PathDef { ctor: "P_count_star_with_cte", sql: "WITH c1 AS (SELECT 1 AS x) SELECT COUNT(*) FROM s", required: &[(S, SEL)], checked_extra: &[], class: "" },
+    PathDef { ctor: "P_count_star_scalar_limit", sql: "SELECT id, (SELECT COUNT(*) FROM s LIMIT 1) FROM m", required: &[(M, SEL), (S, SEL)], checked_extra: &[], class: "" },
+    PathDef { ctor: "P_in_index_order_by", sql: "SELECT id FROM m ORDER BY k IN (SELECT k FROM s), id", required: &[(M, SEL), (S, SEL)], checked_extra: &[], class: "" },
+    PathDef { ctor: "P_in_index_group_by", sql: "SELECT COUNT(*) FROM m GROUP BY k IN (SELECT k FROM s)", required: &[(M, SEL), (S, SEL)], checked_extra: &[], class: "" },
+    PathDef { ctor: "P_in_index_partition_by", sql: "SELECT id, SUM(v) OVER (PARTITION BY k IN (SELECT k FROM s)) FROM m", required: &[(M, SEL), (S, SEL)], checked_extra: &[], class: "" },
+    PathDef { ctor: "P_window_partition_subquery", sql: "SELECT id, SUM(v) OVER (PARTITION BY (SELECT COUNT(*) FROM s WHERE s.k = m.k)) FROM m", required: &[(M, SEL), (S, SEL)], checked_extra: &[], class: "" },
     PathDef { ctor: "P_insert_values", sql: "INSERT INTO t VALUES (50, 5, 5)", required: &[(T, INS)], checked_extra: &[], class: "" },
     PathDef { ctor: "P_insert_select", sql: "INSERT INTO t SELECT id + 1000, k, v FROM s", required: &[(T, INS), (S, SEL)], checked_extra: &[], class: "" },
     PathDef { ctor: "P_insert_select_columns", sql: "INSERT INTO t (id, k, v) SELECT id, k, v FROM s", required: &[(T, INS), (S, SEL)], checked_extra: &[], class: "" },
-    PathDef { ctor: "P_insert_select_bulk", sql: "INSERT INTO t SELECT * FROM s", required: &[(T, INS), (S, SEL)], checked_extra: &[], class: "insert-select-bulk-transfer" },
+    PathDef { ctor: "P_insert_select_bulk", sql: "INSERT INTO t SELECT * FROM s", required: &[(T, INS), (S, SEL)], checked_extra: &[], class: "" },
     PathDef { ctor: "P_insert_select_subquery", sql: "INSERT INTO t SELECT id + 2000, k, v FROM m WHERE k IN (SELECT k FROM s)", required: &[(T, INS), (M, SEL), (S, SEL)], checked_extra: &[], class: "" },
     PathDef { ctor: "P_update_plain", sql: "UPDATE u SET v = v + 1", required: &[(U, UPD)], checked_extra: &[], class: "" },
     PathDef { ctor: "P_update_pk", sql: "UPDATE u SET v = 0 WHERE id = 1", required: &[(U, UPD)], checked_extra: &[], class: "" },
@@ -650,15 +652,15 @@ const PATHS: &[PathDef] = &[
     PathDef { ctor: "P_delete_where", sql: "DELETE FROM u WHERE v > 1", required: &[(U, DEL)], checked_extra: &[], class: "" },
     PathDef { ctor: "P_delete_pk", sql: "DELETE FROM u WHERE id = 1", required: &[(U, DEL)], checked_extra: &[], class: "" },
     PathDef { ctor: "P_delete_all", sql: "DELETE FROM u", required: &[(U, DEL)], checked_extra: &[], class: "" },
-    PathDef { ctor: "P_delete_where_subquery", sql: "DELETE FROM u WHERE k IN (SELECT k FROM s)", required: &[(U, DEL), (S, SEL)], checked_extra: &[], class: "delete-where-error-swallowed" },
-    PathDef { ctor: "P_delete_where_exists", sql: "DELETE FROM u WHERE EXISTS (SELECT 1 FROM s WHERE s.k = u.k)", required: &[(U, DEL), (S, SEL)], checked_extra: &[], class: "delete-where-error-swallowed" },
+    PathDef { ctor: "P_delete_where_subquery", sql: "DELETE FROM u WHERE k IN (SELECT k FROM s)", required: &[(U, DEL), (S, SEL)], checked_extra: &[], class: "" },
+    PathDef { ctor: "P_delete_where_exists", sql: "DELETE FROM u WHERE EXISTS (SELECT 1 FROM s WHERE s.k = u.k)", required: &[(U, DEL), (S, SEL)], checked_extra: &[], class: "" },
     PathDef { ctor: "P_truncate", sql: "TRUNCATE TABLE u", required: &[(U, DEL)], checked_extra: &[], class: "" },
     PathDef { ctor: "P_truncate_multi", sql: "TRUNCATE TABLE u, m", required: &[(U, DEL), (M, DEL)], checked_extra: &[], class: "" },
     PathDef { ctor: "P_truncate_cascade", sql: "TRUNCATE TABLE p CASCADE", required: &[(P, DEL), (D, DEL)], checked_extra: &[], class: "" },
-    PathDef { ctor: "P_truncate_multi_cascade", sql: "TRUNCATE TABLE u, p CASCADE", required: &[(U, DEL), (P, DEL), (D, DEL)], checked_extra: &[], class: "truncate-multi-cascade-partial" },
-    PathDef { ctor: "P_on_duplicate_key_update", sql: "INSERT INTO u VALUES (1, 9, 9), (60, 6, 6) ON DUPLICATE KEY UPDATE v = 99", required: &[(U, INS), (U, UPD)], checked_extra: &[], class: "insert-on-duplicate-key-update" },
-    PathDef { ctor: "P_replace_into", sql: "REPLACE INTO u VALUES (1, 9, 9)", required: &[(U, INS), (U, DEL)], checked_extra: &[], class: "insert-replace" },
-    PathDef { ctor: "P_insert_or_replace", sql: "INSERT OR REPLACE INTO u VALUES (1, 9, 9)", required: &[(U, INS), (U, DEL)], checked_extra: &[], class: "insert-replace" },
+    PathDef { ctor: "P_truncate_multi_cascade", sql: "TRUNCATE TABLE u, p CASCADE", required: &[(U, DEL), (P, DEL), (D, DEL)], checked_extra: &[], class: "" },
+    PathDef { ctor: "P_on_duplicate_key_update", sql: "INSERT INTO u VALUES (1, 9, 9), (60, 6, 6) ON DUPLICATE KEY UPDATE v = 99", required: &[(U, INS), (U, UPD)], checked_extra: &[], class: "" },
+    PathDef { ctor: "P_replace_into", sql: "REPLACE INTO u VALUES (1, 9, 9)", required: &[(U, INS), (U, DEL)], checked_extra: &[], class: "" },
+    PathDef { ctor: "P_insert_or_replace", sql: "INSERT OR REPLACE INTO u VALUES (1, 9, 9)", required: &[(U, INS), (U, DEL)], checked_extra: &[], class: "" },
     PathDef { ctor: "P_fk_cascade_delete", sql: "DELETE FROM t WHERE id = 1", required: &[(T, DEL)], checked_extra: &[], class: "" },
     PathDef { ctor: "P_fk_cascade_update", sql: "UPDATE t SET id = 70 WHERE id = 2", required: &[(T, UPD)], checked_extra: &[], class: "" },
 ];
@@ -1002,18 +1004,21 @@ fn main() {
                 }
             }
             if obs.code == 9 {
-                // predicted non-termination: confirm in a child process, end the history here
+                // REVOKE GRANT OPTION FOR ... CASCADE over a cyclic delegation graph: before the visited-set fix
+                // revoke_cascade recursed until the stack overflowed and the process died, which catch_unwind cannot
+                // stop.  Safety net: replay the history in a child process first; only a statement the child
+                // survives is executed here.
                 let (died, how) = confirm_crash(&args, &tables, with_s2, &executed, id);
-                sum.count(if died { "hist:crash-confirmed-in-child" } else { "hist:crash-NOT-confirmed" });
+                sum.count(if died { "hist:cyclic-cascade-child-died" } else { "hist:cyclic-cascade-child-survived" });
                 if died {
                     crash_confirmed += 1;
-                    case_findings.push(("revoke-grant-option-cascade-cycle".into(), format!("`{}` on a cyclic delegation graph kills the process ({})", match o { HOp::Sql(s) => s.as_str(), _ => "" }, how)));
-                } else {
-                    // the model says crash (code 9 stays in the shard) but the child survived: reported as a mismatch by the shard
-                    let l = codes.len();
-                    codes[l - 1] = 0;
+                    case_findings.push(("revoke-cascade-unbounded-recursion".into(), format!("`{}` on a cyclic delegation graph kills the process ({})", match o { HOp::Sql(s) => s.as_str(), _ => "" }, how)));
+                    break; // code 9 stays in the shard: the model says the statement returns
                 }
-                break;
+                let again = run_hop(&mut st, o, true);
+                let l = codes.len();
+                codes[l - 1] = again.code;
+                sum.count(&format!("hist:cyclic-cascade-in-process:{}", again.code));
             }
         }
         // oracle: a role never named in any GRANT is denied everything on every table
@@ -1064,7 +1069,7 @@ fn main() {
         ));
         sum.model_cases += 1;
     }
-    sum.count_n("hist:crashes-confirmed", crash_confirmed);
+    sum.count_n("hist:cyclic-cascade-child-deaths", crash_confirmed);
 
     let t_a = t_start.elapsed().as_secs_f64();
     // ---------------------------------------------------------------- Part B
@@ -1167,33 +1172,12 @@ fn main() {
                     if code == 0 {
                         // executed although a required privilege is missing
                         let leaked = lacks_select && (matches!(&out, Outcome::Rows(r) if !r.is_empty()) || !changed.is_empty());
-                        // one partition for all rows = the subquery's value did not reach the result (with SELECT on S
-                        // the fixture gives two partitions)
-                        let single_partition = matches!(&out, Outcome::Rows(r) if r.iter().all(|x| x.len() == 2 && canon_value(&x[1]) == canon_value(&r[0][1])));
-                        let class = if pd.class == "delete-where-error-swallowed" && changed.is_empty() && lacking == vec![(S, SEL)] && matches!(out, Outcome::Count(0)) {
-                            // nothing read, nothing deleted: the refusal inside the WHERE clause was swallowed
-                            "delete-where-error-swallowed"
-                        } else if pd.class == "window-partition-error-swallowed" && changed.is_empty() && lacking == vec![(S, SEL)] && single_partition {
-                            // the statement ran, but without the refused subquery: every row lands in the NULL partition
-                            "window-partition-error-swallowed"
-                        } else if !pd.class.is_empty() && pd.class != "window-partition-error-swallowed" && pd.class != "delete-where-error-swallowed" && pd.class != "truncate-multi-cascade-partial" {
-                            // the class is about exactly one missing privilege per path
-                            let about: (u8, u8) = match pd.class {
-                                "count-star-fast-path" | "in-subquery-index-path" | "insert-select-bulk-transfer" => (S, SEL),
-                                "insert-on-duplicate-key-update" => (U, UPD),
-                                _ => (U, DEL),
-                            };
-                            if lacking == vec![about] {
-                                pd.class
-                            } else {
-                                "unprivileged-access"
-                            }
-                        } else {
-                            "unprivileged-access"
-                        };
+                        // every path-level defect class has been repaired upstream (pd.class is empty for all paths);
+                        // a listed class would be matched here by a narrow predicate on (path, missing privilege, behaviour)
+                        let class = if !pd.class.is_empty() && lacking.len() == 1 { pd.class } else { "unprivileged-access" };
                         sum.finding(class, id, format!("role lacking {:?} ran `{}`: {} (changed tables {:?}, rows of an unreadable table {} the result)", case["lacking_required"], pd.sql, out.tag(), changed, if leaked { "reached" } else { "did not reach" }), case.clone());
                     } else if !unauthorised_change.is_empty() || (code != 0 && !changed.is_empty()) {
-                        let class = if pd.class == "truncate-multi-cascade-partial" && changed == vec!["U".to_string()] && code == 6 { pd.class } else { "refused-but-changed" };
+                        let class = "refused-but-changed";
                         sum.finding(class, id, format!("`{}` was refused ({}) but changed {:?}", pd.sql, out.tag(), changed), case.clone());
                     } else if code != 6 {
                         sum.finding("refused-with-other-error", id, format!("`{}` failed with {:?} instead of PermissionDenied", pd.sql, out), case.clone());
@@ -1285,13 +1269,16 @@ fn main() {
                 }
                 if must_be_denied {
                     if let Outcome::Rows(rows) = &out {
+                        // every FROM item (through derived tables and set-operation arms) that names an unreadable table is a
+                        // bare `SELECT COUNT(*) FROM tab` select: the shape that used to leak through the row_count() fast
+                        // path (repaired, so it is no listed class any more; recorded in the case for triage)
+                        let via_count_star_only = !top_plain.iter().any(unreadable) && top_cstar.iter().any(unreadable);
                         let case = json!({"kind": "blanket", "role": role, "sql": sql_text, "create": create_sql(&dbdef), "indexed": with_index,
                             "tables_anywhere": all_plain.iter().chain(all_cstar.iter()).map(|t| format!("tab{}", t)).collect::<Vec<_>>(),
-                            "unreadable_tables": (0..nt).filter(|t| unreadable(t)).map(|t| format!("tab{}", t)).collect::<Vec<_>>(), "rows": rows.len()});
+                            "unreadable_tables": (0..nt).filter(|t| unreadable(t)).map(|t| format!("tab{}", t)).collect::<Vec<_>>(), "rows": rows.len(),
+                            "only_through_bare_count_star": via_count_star_only});
                         log.log(id, case.clone());
-                        // narrow classifier: every FROM item (through derived tables and set-operation arms) that
-                        // names an unreadable table is a bare `SELECT COUNT(*) FROM tab` select
-                        let class = if !top_plain.iter().any(unreadable) && top_cstar.iter().any(unreadable) { "count-star-fast-path" } else { "unprivileged-read" };
+                        let class = "unprivileged-read";
                         sum.finding(class, id, format!("role {} without SELECT on {:?} got {} row(s) from `{}`", role, case["unreadable_tables"], rows.len(), sql_text), case);
                     }
                 }
